@@ -262,6 +262,52 @@ def _walk_module_scope(root: ast.Module) -> Iterable[ast.AST]:
             stack.extend(ast.iter_child_nodes(node))
 
 
+def _infer_all(root: ast.Module) -> Tuple[bool, Set[str] | None]:
+    """Figure out what the __all__ variable of a module contains at runtime.
+
+    Returns:
+        (known, names): names is None if the module does not define __all__. known is False if
+        __all__ is built in a way that is not understood, in which case names is meaningless.
+    """
+    strings = (
+        ast.List(elts={ast.Constant(value=str)}),
+        ast.Tuple(elts={ast.Constant(value=str)}),
+    )
+    names: Set[str] = set()
+    defined = False
+    nodes = [node for node in _walk_module_scope(root) if isinstance(node, (ast.stmt, ast.expr))]
+    for node in sorted(nodes, key=lambda n: (n.lineno, n.col_offset)):
+        if isinstance(node, ast.Name) and node.id == "__all__" and isinstance(node.ctx, ast.Del):
+            return False, None
+        if isinstance(node, ast.Name) and node.id == "__all__" and isinstance(node.ctx, ast.Store):
+            defined = True  # What is stored is judged at the statement, below
+        if core.match_template(node, ast.Assign(targets=[ast.Name(id="__all__")], value=strings)):
+            names = {constant.value for constant in node.value.elts}
+        elif core.match_template(
+            node, ast.AugAssign(target=ast.Name(id="__all__"), op=ast.Add, value=strings)
+        ):
+            names.update(constant.value for constant in node.value.elts)
+        elif isinstance(node, (ast.Assign, ast.AnnAssign, ast.AugAssign, ast.NamedExpr)) and any(
+            isinstance(target, ast.Name) and target.id == "__all__"
+            for target in ast.walk(node)
+            if isinstance(target, ast.Name) and isinstance(target.ctx, ast.Store)
+        ):
+            return False, None
+        elif isinstance(node, ast.Call) and core.match_template(
+            node.func, ast.Attribute(value=ast.Name(id="__all__"))
+        ):
+            if node.func.attr == "extend" and core.match_template(node.args, [strings]):
+                names.update(constant.value for constant in node.args[0].elts)
+            elif node.func.attr == "append" and core.match_template(
+                node.args, [ast.Constant(value=str)]
+            ):
+                names.add(node.args[0].value)
+            else:
+                return False, None
+
+    return True, (names if defined else None)
+
+
 @functools.lru_cache(maxsize=100_000)
 def trace_origin(name: str, source: str, *, __all__: bool = False) -> _TraceResult | None:
     """Trace the origin of a name in python source code.
@@ -291,6 +337,12 @@ def trace_origin(name: str, source: str, *, __all__: bool = False) -> _TraceResu
                 ast.Assign,
                 ast.AnnAssign,
                 ast.NamedExpr,
+                ast.AugAssign,
+                ast.For,
+                ast.AsyncFor,
+                ast.With,
+                ast.AsyncWith,
+                ast.Delete,
     ),)}
 
     # Try to figure out what the __all__ variable in source may contain at runtime.
@@ -299,36 +351,9 @@ def trace_origin(name: str, source: str, *, __all__: bool = False) -> _TraceResu
     # Without this, we could for example think that `os` was accessible in `pathlib`,
     # and end up putting `from pathlib import os` in generated code.
     if __all__:
-        all_template = ast.Assign(
-            targets=[ast.Name(id="__all__")],
-            value=(
-                ast.List(elts={ast.Constant(value=str)}),
-                ast.Tuple(elts={ast.Constant(value=str)}),
-        ),)
-        all_extend_template = ast.Call(
-            func=ast.Attribute(value=ast.Name(id="__all__"), attr="extend"),
-            args=[(
-                ast.Tuple(elts={ast.Constant(value=str)}),
-                ast.List(elts={ast.Constant(value=str)}),
-        )],)
-        all_append_template = ast.Call(
-            func=ast.Attribute(value=ast.Name(id="__all__"), attr="append"), args=[str]
-        )
-        all_filter: Set[str] = set()
-        all_nodes = tuple(core.filter_nodes(root.body, all_template))
-
-        if all_nodes:
-            for node in all_nodes:
-                all_filter.update(constant.value for constant in node.value.elts)
-
-            for node in core.walk(root, all_extend_template):
-                all_filter.update(constant.value for constant in node.args[0].elts)
-
-            for node in core.walk(root, all_append_template):
-                all_filter.add(node.args[0])
-
-            if name not in all_filter:
-                return None
+        all_known, all_filter = _infer_all(root)
+        if all_known and all_filter is not None and name not in all_filter:
+            return None
 
     for node in sorted(nodes, key=lambda n: (n.lineno, n.col_offset), reverse=True):
         if isinstance(node, (ast.Import, ast.ImportFrom)):
@@ -337,60 +362,10 @@ def trace_origin(name: str, source: str, *, __all__: bool = False) -> _TraceResu
                     return _TraceResult(core.get_code(node, source), node.lineno, node)
                 if alias.asname is None and alias.name == name:
                     return _TraceResult(core.get_code(node, source), node.lineno, node)
-
                 if alias.name != "*":
                     continue
 
-                if node.module in constants.PYTHON_311_STDLIB:
-                    # Logic copied from _get_exports_list() in os.py from python3.12.0b2
-                    module = importlib.import_module(node.module)
-                    exports = getattr(
-                        module, "__all__", [x for x in dir(module) if not x.startswith("_")]
-                    )
-                    if name in exports:
-                        return _TraceResult(core.get_code(node, source), node.lineno, node)
-
-                if node.module is None:
-                    continue
-
-                origin = _trace_module_source_file(node.module)
-
-                # This is likely the best way to truly check the __all__ of a module,
-                # but if a user has forgotten the `if __name__ == "__main__":` guard,
-                # we might end up executing code that we shouldn't if we try that. So
-                # only builtins are imported this way.
-                if origin in {"frozen", "built-in"}:
-                    module = importlib.import_module(node.module)
-                    exports = getattr(
-                        module, "__all__", [x for x in dir(module) if not x.startswith("_")]
-                    )
-                    if name in exports:
-                        return _TraceResult(core.get_code(node, source), node.lineno, node)
-
-                    continue
-
-                if origin is None:
-                    continue
-
-                origin = Path(origin)
-                if origin.suffix != ".py":  # We may get .so files for some modules
-                    continue
-
-                # For non-builtin modules (unfortunately including much of the stdlib),
-                # we try to parse the ast of the module to figure out what __all__ is
-                # likely to contain. This is pretty accurate, but not perfect.
-                with origin.open("r", encoding="utf-8") as stream:
-                    module_source = stream.read()
-
-                # Like dir() above: without __all__, a star import skips names with a leading underscore
-                if name.startswith("_") and not any(
-                    core.filter_nodes(
-                        core.parse(module_source).body,
-                        ast.Assign(targets=[ast.Name(id="__all__")], value=(ast.List, ast.Tuple)),
-                )):
-                    continue
-
-                if trace_origin(name, module_source, __all__=True):
+                if _star_import_provides(node.module, node.level, name):
                     return _TraceResult(core.get_code(node, source), node.lineno, node)
 
         if isinstance(node, (ast.FunctionDef, ast.AsyncFunctionDef, ast.ClassDef)):
@@ -405,7 +380,95 @@ def trace_origin(name: str, source: str, *, __all__: bool = False) -> _TraceResu
         if isinstance(node, ast.NamedExpr) and core.match_template(node.target, ast.Name(id=name)):
             return _TraceResult(core.get_code(node, source), node.lineno, node)
 
+        if isinstance(node, ast.Delete):
+            if any(core.match_template(target, ast.Name(id=name)) for target in node.targets):
+                return None  # No longer bound after this
+
+        targets = []
+        if isinstance(node, ast.AugAssign):
+            targets = [node.target]
+        elif isinstance(node, (ast.For, ast.AsyncFor)):
+            targets = [node.target]
+        elif isinstance(node, (ast.With, ast.AsyncWith)):
+            targets = [item.optional_vars for item in node.items if item.optional_vars is not None]
+        if any(
+            isinstance(child, ast.Name) and child.id == name and isinstance(child.ctx, ast.Store)
+            for target in targets
+            for child in ast.walk(target)
+        ):
+            return _TraceResult(core.get_code(node, source), node.lineno, node)
+
     return None
+
+
+@functools.lru_cache(maxsize=100_000)
+def _star_import_provides(module: str | None, level: int, name: str) -> bool | None:
+    """Determine if `from module import *` binds name. None if that cannot be determined."""
+    if level or module is None:
+        return None  # Relative to a package that is not known here
+
+    if module in constants.PYTHON_311_STDLIB:
+        # Logic copied from _get_exports_list() in os.py from python3.12.0b2
+        try:
+            imported = importlib.import_module(module)
+        except ImportError:
+            return None
+        return name in getattr(
+            imported, "__all__", [x for x in dir(imported) if not x.startswith("_")]
+        )
+
+    origin = _trace_module_source_file(module)
+
+    # Importing is likely the best way to truly check the __all__ of a module,
+    # but if a user has forgotten the `if __name__ == "__main__":` guard,
+    # we might end up executing code that we shouldn't if we try that. So
+    # only builtins are imported this way.
+    if origin in {"frozen", "built-in"}:
+        imported = importlib.import_module(module)
+        return name in getattr(
+            imported, "__all__", [x for x in dir(imported) if not x.startswith("_")]
+        )
+
+    if origin is None or Path(origin).suffix != ".py":  # We may get .so files for some modules
+        return None
+
+    # For non-builtin modules (unfortunately including much of the stdlib),
+    # we try to parse the ast of the module to figure out what __all__ is
+    # likely to contain. This is pretty accurate, but not perfect.
+    with Path(origin).open("r", encoding="utf-8") as stream:
+        module_source = stream.read()
+
+    module_root = core.parse(module_source)
+    all_known, all_names = _infer_all(module_root)
+    if not all_known:
+        return None
+
+    # Like dir() above: without __all__, a star import skips names with a leading underscore
+    if all_names is None and name.startswith("_"):
+        return False
+    if all_names is not None and name not in all_names:
+        return False
+
+    if trace_origin(name, module_source, __all__=True):
+        return True
+
+    # The name may still be there: as a submodule of a package, assigned through a global
+    # statement, or through a star import that cannot be followed.
+    if all_names is not None:
+        return None
+    if Path(origin).name == "__init__.py" and (
+        (Path(origin).parent / name).is_dir() or (Path(origin).parent / f"{name}.py").is_file()
+    ):
+        return None
+    for node in ast.walk(module_root):
+        if isinstance(node, ast.Global) and name in node.names:
+            return None
+    for node in _walk_module_scope(module_root):
+        if isinstance(node, ast.ImportFrom) and any(alias.name == "*" for alias in node.names):
+            if _star_import_provides(node.module, node.level, name) is None:
+                return None
+
+    return False
 
 
 def get_defined_names(root: ast.Module) -> Set[str]:
@@ -457,24 +520,35 @@ def fix_starred_imports(source: str) -> str:
     if not template:
         return source
 
-    # A star import also rebinds names that are builtin, or that are bound earlier in the module,
-    # so every referenced name is traced, not only those that would otherwise be undefined.
-    for name in _get_referenced_names(root):
-        if trace_result := trace_origin(name, source):
-            if core.match_template(trace_result.ast, template):
-                starred_import_name_mapping[trace_result.ast].add(name)
+    # A star import also rebinds names that are builtin, or that are bound elsewhere in the module:
+    # every name the module refers to is looked for in every star import, the last one wins.
+    # Whatever else binds the name later in the file still does so after the explicit import.
+    names = _get_referenced_names(root)
+    names.update(node.id for node in core.walk(root, ast.Name(ctx=ast.Del)))
+    names.update(
+        node.target.id for node in core.walk(root, ast.AugAssign) if isinstance(node.target, ast.Name)
+    )
+    star_imports = sorted(template, key=lambda node: node.lineno, reverse=True)
+    untraceable = set()
+    for name in names:
+        for node in star_imports:
+            provides = _star_import_provides(node.module, node.level, name)
+            if provides is None:
+                untraceable.add(node)  # Left alone, and it may or may not bind the name
+            elif provides:
+                starred_import_name_mapping[node].add(name)
+                break
 
-    for node, names in starred_import_name_mapping.items():
-        if names:
+    for node in star_imports:
+        if node in untraceable:
+            continue
+        if names := starred_import_name_mapping.get(node):
             yield node, ast.ImportFrom(
                 module=node.module,
                 names=[ast.alias(name=name, asname=None) for name in sorted(names)],
                 level=0,
             )
-
-    # Remove remaining starred imports
-    for node in core.filter_nodes(root.body, template):
-        if not core.match_template(node, tuple(starred_import_name_mapping)):
+        else:
             yield node, None
 
 
@@ -504,8 +578,8 @@ def fix_reimported_names(source: str) -> str:
         if node.module in constants.PYTHON_311_STDLIB:
             continue
 
-        if node.module is None:
-            continue
+        if node.module is None or node.level:
+            continue  # Relative to a package that is not known here
 
         origin = _trace_module_source_file(node.module)
         if origin in {"frozen", "built-in", None}:
@@ -539,7 +613,15 @@ def fix_reimported_names(source: str) -> str:
 
             if trace_result := trace_origin(name, module_source, __all__=True):
                 *_, module_import_node = trace_result
-                if isinstance(module_import_node, ast.ImportFrom):
+                if isinstance(module_import_node, (ast.ImportFrom, ast.Import)) and (
+                    # Which branch of a conditional runs is not known
+                    module_import_node.col_offset != 0
+                    # Relative to the package of the module
+                    or getattr(module_import_node, "level", 0)
+                    or getattr(module_import_node, "module", "") is None
+                ):
+                    node_names.append(alias)
+                elif isinstance(module_import_node, ast.ImportFrom):
                     # Remove this alias from node.names
                     # Add this alias to things that should be imported from module_import_node.module
                     if (
